@@ -384,7 +384,7 @@ impl Urow {
     }
 }
 
-fn dump_utxos(st: &St, accts: &[AccountUuid], addrs: &[String]) -> Vec<Urow> {
+fn dump_utxos(st: &St, accts: &[AccountUuid], addrs: &[String], known_spends: &[(Vec<u8>, u32, [u8; 32])]) -> Vec<Urow> {
     let conn = st.wallet().conn();
     let mut stmt = conn
         .prepare(
@@ -431,12 +431,33 @@ fn dump_utxos(st: &St, accts: &[AccountUuid], addrs: &[String]) -> Vec<Urow> {
     for row in rows.iter_mut() {
         let mut s = conn
             .prepare(
-                "SELECT stx.mined_height, stx.expiry_height, stx.min_observed_height
+                "SELECT stx.mined_height, stx.expiry_height, stx.min_observed_height, stx.txid
                  FROM transparent_received_output_spends sp JOIN transactions stx ON stx.id_tx = sp.transaction_id
                  WHERE sp.transparent_received_output_id = ?1 ORDER BY stx.id_tx",
             )
             .unwrap();
-        row.spenders = s.query_map([row.id], |r| Ok((r.get(0)?, r.get(1)?, r.get(2)?))).unwrap().map(|x| x.unwrap()).collect();
+        let sp: Vec<((Option<i64>, Option<i64>, i64), Vec<u8>)> = s
+            .query_map([row.id], |r| Ok(((r.get(0)?, r.get(1)?, r.get(2)?), r.get(3)?)))
+            .unwrap()
+            .map(|x| x.unwrap())
+            .collect();
+        row.spenders = sp.iter().map(|x| x.0).collect();
+        // GROUND TRUTH: transactions this harness stored in the wallet that spend this outpoint. If the
+        // wallet has no spend row for one of them, the spender is added here from the transactions table.
+        for (txid, n, spender_txid) in known_spends {
+            if *txid == row.txid && *n == row.oidx && !sp.iter().any(|x| x.1[..] == spender_txid[..]) {
+                let got: Option<(Option<i64>, Option<i64>, i64)> = conn
+                    .query_row(
+                        "SELECT mined_height, expiry_height, min_observed_height FROM transactions WHERE txid = ?1",
+                        [&spender_txid[..]],
+                        |r| Ok((r.get(0)?, r.get(1)?, r.get(2)?)),
+                    )
+                    .ok();
+                if let Some(x) = got {
+                    row.spenders.push(x);
+                }
+            }
+        }
     }
     // rank in OutPoint order
     let mut ord: Vec<(OutPoint, i64)> = rows
@@ -614,6 +635,11 @@ struct H {
     nu63: bool,
     taddrs: Vec<TransparentAddress>,
     pending_t: Vec<TxId>,
+    /// (outpoint txid, outpoint n, spending txid) for transactions stored in this wallet
+    known_spends: Vec<(Vec<u8>, u32, [u8; 32])>,
+    plain_acct: Option<usize>,
+    focus: Option<(usize, ShieldedPool)>,
+    seed: u64,
 }
 
 const GRID: u32 = 12;
@@ -706,6 +732,10 @@ impl H {
             nu63,
             taddrs,
             pending_t: vec![],
+            known_spends: vec![],
+            plain_acct: None,
+            focus: None,
+            seed,
         }
     }
 
@@ -715,7 +745,7 @@ impl H {
     }
 
     fn udump(&self) -> Vec<Urow> {
-        dump_utxos(&self.st, &self.acct_ids(), &self.taddr_strings())
+        dump_utxos(&self.st, &self.acct_ids(), &self.taddr_strings(), &self.known_spends)
     }
 
     /// A transparent output received at one of the accounts' default transparent addresses.
@@ -819,9 +849,16 @@ impl H {
     fn q_shield(&mut self, ud: &[Urow], d: &Dump, lock: Option<LockRequest>, plain: bool) -> Option<(usize, Proposal<StandardFeeRule, Infallible>, Vec<TransparentAddress>)> {
         let pol = if plain { ConfirmationsPolicy::MIN } else { self.tpolicy() };
         let (env, _) = self.env_coq(d, &pol);
-        let (addrs, addrc) = if plain { (self.taddrs.clone(), vec![0, 1]) } else { self.rand_addrs() };
+        let (addrs, addrc) = match (plain, self.plain_acct) {
+            (true, Some(a)) => (vec![self.taddrs[a]], vec![a as i64]),
+            (true, None) => (self.taddrs.clone(), vec![0, 1]),
+            _ => self.rand_addrs(),
+        };
         let (f, fc) = if plain { (CoinbaseFilter::AllTransparentOutputs, "CbAll") } else { self.rand_filter() };
-        let to = self.rng.below(2) as usize;
+        let to = match (plain, self.plain_acct) {
+            (true, Some(a)) => a,
+            _ => self.rng.below(2) as usize,
+        };
         let tot: i64 = ud.iter().map(|u| u.value).sum();
         let threshold = match self.rng.below(5) {
             0 => 0,
@@ -953,7 +990,7 @@ impl H {
     }
 
     /// A shielding transaction created for real (Sapling change, mock provers) and stored pending.
-    fn op_shield_store(&mut self) {
+    fn op_shield_store(&mut self, allow_never: bool) -> Option<TxId> {
         let accts = self.acct_ids();
         let ud = self.udump();
         let d = dump(&self.st, &accts);
@@ -961,7 +998,7 @@ impl H {
         if let Some((_to, p, _)) = self.q_shield(&ud, &d, lock, true) {
             // the spending keys must cover the input addresses: try both accounts
             let net = self.st.network().clone();
-            let never = self.rng.chance(1, 3);
+            let never = allow_never && self.rng.chance(1, 3);
             let spent: Vec<(Option<ShieldedPool>, i64)> = p
                 .steps()
                 .iter()
@@ -996,11 +1033,130 @@ impl H {
                         self.pending_t.push(txids[0]);
                     }
                     self.bump("op_shield_created");
-                    return;
+                    return Some(txids[0]);
                 }
             }
             self.bump("op_shield_create_failed");
         }
+        None
+    }
+
+    fn put_utxo(&mut self, a: usize, mined: Option<BlockHeight>, v: u64) -> Option<WalletTransparentOutput<AccountUuid>> {
+        let mut h = [0u8; 32];
+        h.copy_from_slice(&self.rng.bytes(32));
+        let op = OutPoint::new(h, self.rng.below(3) as u32);
+        let utxo = WalletTransparentOutput::from_parts(
+            op,
+            TxOut::new(Zatoshis::from_u64(v).unwrap(), self.taddrs[a].script().into()),
+            mined,
+            Some(self.accts[a].id),
+            Some(TransparentKeyScope::EXTERNAL),
+            None,
+        )
+        .unwrap();
+        let r = catch(|| self.st.wallet_mut().put_received_transparent_utxo(&utxo));
+        if matches!(r, Some(Ok(_))) { Some(utxo) } else { None }
+    }
+
+    /// A shielding transaction with 2-3 transparent inputs of DIFFERENT ages, shielded at zero
+    /// confirmations and mined at once; then proposals at every confirmation depth while the tip
+    /// advances past the trusted / untrusted thresholds of the inputs.
+    fn op_shield_scenario(&mut self) {
+        let Some(tip) = self.st.wallet().chain_height().unwrap() else { return };
+        let tipu = u32::from(tip);
+        let a = self.rng.below(2) as usize;
+        // every existing transparent output of the account is spent first, so the scenario's inputs are exactly these
+        let n = 2 + self.rng.below(2) as usize;
+        let mut offs: Vec<u32> = vec![0, 2 + self.rng.below(4) as u32, 9 + self.rng.below(6) as u32];
+        offs.truncate(n);
+        for o in offs {
+            let v = 20000 + self.rng.below(60000);
+            self.put_utxo(a, Some(BlockHeight::from_u32(tipu.saturating_sub(o).max(ACTIVATION))), v);
+        }
+        self.plain_acct = Some(a);
+        let tx = self.op_shield_store(false);
+        self.plain_acct = None;
+        let Some(txid) = tx else { return };
+        self.pending_t.retain(|t| *t != txid);
+        if let Some((h, _)) = catch(|| self.st.generate_next_block_including(txid)) {
+            self.after_block(h, true);
+            self.scan_pending();
+            self.bump("op_shield_scenario_mined");
+            self.focus = Some((a, ShieldedPool::Sapling));
+            for _ in 0..12 {
+                self.op_empty(1, true);
+                self.queries(3, 1);
+            }
+            self.focus = None;
+        }
+    }
+
+    /// Two devices on one seed: device B holds a transparent output and stores a transaction S spending
+    /// it; this wallet first learns S (unmined, decrypt_and_store_transaction) and only THEN the output
+    /// (put_received_transparent_utxo, as read from the network's UTXO set).
+    fn op_two_device(&mut self) {
+        let Some(tip) = self.st.wallet().chain_height().unwrap() else { return };
+        let tipu = u32::from(tip);
+        let a = self.rng.below(2) as usize;
+        let mut b = H::new(self.seed, 9_000_000, self.nu63);
+        b.op_empty((tipu - ACTIVATION + 1) as usize, true);
+        let v = 30000 + self.rng.below(90000);
+        let mined = Some(BlockHeight::from_u32(tipu.saturating_sub(self.rng.below(4) as u32).max(ACTIVATION)));
+        let Some(utxo) = b.put_utxo(a, mined, v) else { return };
+        let inner = standard::SingleOutputChangeStrategy::<TestDb>::new(
+            StandardFeeRule::Zip317,
+            None,
+            ShieldedPool::Sapling,
+            DustOutputPolicy::default(),
+        );
+        let sel = GreedyInputSelector::<TestDb>::new();
+        let net = b.st.network().clone();
+        let to = b.accts[a].id;
+        let addr = b.taddrs[a];
+        let p = catch(|| {
+            propose_shielding::<_, _, _, _, Infallible>(
+                b.st.wallet_mut(),
+                &net,
+                &sel,
+                &inner,
+                Zatoshis::const_from_u64(1),
+                &[addr],
+                to,
+                ConfirmationsPolicy::MIN,
+                CoinbaseFilter::AllTransparentOutputs,
+                None,
+            )
+        });
+        let Some(Ok(p)) = p else { self.bump("op_two_device_no_proposal"); return };
+        let usk = b.accts[a].usk.clone();
+        let r = catch(|| {
+            zcash_client_backend::data_api::wallet::create_proposed_transactions::<_, _, Infallible, _, Infallible, _>(
+                b.st.wallet_mut(),
+                &net,
+                &sapling::prover::mock::MockSpendProver,
+                &sapling::prover::mock::MockOutputProver,
+                &zcash_client_backend::data_api::wallet::SpendingKeys::from_unified_spending_key(usk),
+                OvkPolicy::Sender,
+                &p,
+                None,
+            )
+        });
+        let Some(Ok(txids)) = r else { self.bump("op_two_device_no_tx"); return };
+        let txid = txids[0];
+        let tx = b.st.wallet().get_transaction(txid).unwrap().unwrap();
+        // this device: the spender first ...
+        let r = catch(|| zcash_client_backend::data_api::wallet::decrypt_and_store_transaction(&net, self.st.wallet_mut(), &tx, None));
+        if !matches!(r, Some(Ok(_))) {
+            self.bump("op_two_device_store_failed");
+            return;
+        }
+        let mut tb = [0u8; 32];
+        tb.copy_from_slice(txid.as_ref());
+        self.known_spends.push((utxo.outpoint().hash().to_vec(), utxo.outpoint().n(), tb));
+        // ... then the output it spends
+        let r = catch(|| self.st.wallet_mut().put_received_transparent_utxo(&utxo));
+        self.bump(if matches!(r, Some(Ok(_))) { "op_two_device_spend_before_output" } else { "op_two_device_put_failed" });
+        self.tqueries(3, 2);
     }
 
     fn op_lock_utxo(&mut self) {
@@ -1249,7 +1405,19 @@ impl H {
 
     fn q_select(&mut self, d: &Dump) {
         let pols = policies();
-        let pol = if self.rng.bool() { ConfirmationsPolicy::MIN } else { *self.rng.pick(&pols) };
+        let pol = if self.focus.is_some() {
+            // asymmetric policies: trusted < untrusted
+            *self.rng.pick(&[
+                ConfirmationsPolicy::default(),
+                ConfirmationsPolicy::new_unchecked(1, 3, true),
+                ConfirmationsPolicy::new_unchecked(3, 5, true),
+                ConfirmationsPolicy::new_unchecked(2, 6, true),
+            ])
+        } else if self.rng.bool() {
+            ConfirmationsPolicy::MIN
+        } else {
+            *self.rng.pick(&pols)
+        };
         let (env, ta) = self.env_coq(d, &pol);
         let Some((target, _)) = ta else {
             return;
@@ -1259,12 +1427,17 @@ impl H {
         if self.nu63 && self.rng.chance(1, 6) {
             pool = ShieldedPool::Ironwood;
         }
+        let focus = self.focus.filter(|_| self.rng.chance(3, 4));
         if !d.rows.is_empty() && self.rng.chance(3, 4) {
             let r = &d.rows[self.rng.below(d.rows.len() as u64) as usize];
             if r.acct < 2 {
                 a = r.acct as usize;
             }
             pool = r.pool;
+        }
+        if let Some((fa, fp)) = focus {
+            a = fa;
+            pool = fp;
         }
         let lf = self.rand_lf();
         let mut excl: Vec<ReceivedNoteId> = vec![];
@@ -1337,7 +1510,18 @@ impl H {
         lock: Option<LockRequest>,
     ) -> Option<(usize, Proposal<StandardFeeRule, ReceivedNoteId>)> {
         let pols = policies();
-        let pol = if force_sapling_only || self.rng.bool() { ConfirmationsPolicy::MIN } else { *self.rng.pick(&pols) };
+        let pol = if !force_sapling_only && self.focus.is_some() {
+            *self.rng.pick(&[
+                ConfirmationsPolicy::default(),
+                ConfirmationsPolicy::new_unchecked(1, 3, true),
+                ConfirmationsPolicy::new_unchecked(3, 5, true),
+                ConfirmationsPolicy::new_unchecked(2, 6, true),
+            ])
+        } else if force_sapling_only || self.rng.bool() {
+            ConfirmationsPolicy::MIN
+        } else {
+            *self.rng.pick(&pols)
+        };
         let (env, _) = self.env_coq(d, &pol);
         let mut a = self.rng.below(2) as usize;
         if !d.rows.is_empty() && self.rng.chance(3, 4) {
@@ -1349,6 +1533,9 @@ impl H {
         let acct = self.accts[a].id;
         let to_usk = UnifiedSpendingKey::from_seed(self.st.network(), &[9u8; 32], zip32::AccountId::ZERO).unwrap();
         let to_ufvk = to_usk.to_unified_full_viewing_key();
+        if let (false, Some((fa, _))) = (force_sapling_only, self.focus) {
+            a = fa;
+        }
         if force_sapling_only {
             // the account holding the most unspent, unlocked Sapling value
             let v = |acct: i64| -> i64 {
@@ -1869,7 +2056,9 @@ impl H {
         for _ in 0..nops {
             let scan_now = !self.rng.chance(1, 4);
             let accts = self.acct_ids();
-            match self.rng.below(34) {
+            match self.rng.below(37) {
+                34 => self.op_shield_scenario(),
+                35 | 36 => self.op_two_device(),
                 32 | 33 => {
                     let d = dump(&self.st, &accts);
                     self.op_pending(&d)
@@ -1880,7 +2069,11 @@ impl H {
                         self.op_utxo();
                     }
                 }
-                28 | 31 => self.op_shield_store(),
+                28 | 31 => {
+                    self.plain_acct = Some(self.rng.below(2) as usize);
+                    self.op_shield_store(true);
+                    self.plain_acct = None;
+                }
                 29 => {
                     self.op_lock_utxo();
                     self.op_lock_utxo();
